@@ -3,6 +3,7 @@ import os
 import sqlite3
 import warnings
 
+import callguard
 import fw
 import gen_hist
 import instr
@@ -26,7 +27,8 @@ TRUSTED.append('threads sharing one Cache object (shared_block_races) are driven
                'bytecodes that touch no database or file are not explored')
 ASSUMPTIONS = ['rejected calls (bad argument types) are decided by the monitor only: the row model takes well-typed calls',
                'the file clause is proved for the counters only (C08_counters); files-vs-rows agreement is decided by the monitor and by the row/file correspondence of every history',
-               'concurrent clause: see C05']
+               'concurrent clause: see C05',
+               'failing-calls family: injected database errors are raised at statements other than BEGIN / COMMIT / ROLLBACK / PRAGMA; decided by the monitor only']
 
 W = {'set': 16, 'add': 8, 'get': 8, 'contains': 2, 'touch': 4, 'incr': 6, 'pop': 6, 'delete': 5, 'delitem': 2,
      'push': 8, 'pull': 6, 'peek': 3, 'peekitem': 2, 'evict': 2, 'expire': 3, 'cull': 2, 'clear': 1, 'len': 1, 'iter': 1,
@@ -64,6 +66,30 @@ def lib_check(cache):
     return [str(w.message) for w in ws if not issubclass(w.category, diskcache.EmptyDirWarning)]
 
 
+CALL_SECONDS = 30          # wall time after which a single API call is taken not to return (calls take milliseconds)
+
+
+class Runner(seqdrv.Runner):
+    """the sequential driver with a bound on every call: a call that does not return (the library's peek / pull / peekitem retry for ever on a
+    row whose value file is gone) raises callguard.CallDidNotReturn instead of hanging the check; `done` counts the calls that returned"""
+    done = 0
+
+    def call(self, item):
+        with callguard.bounded(CALL_SECONDS, item['op']):
+            r = seqdrv.Runner.call(self, item)
+        self.done += 1
+        return r
+
+
+def hung_call_violation(res, r, g_objs, hist, cfg, extra=None):
+    """the violation for a call of `hist` that did not return: whatever state made the library spin, an operation is still in flight for ever"""
+    i = min(r.done, len(hist) - 1)
+    bad, _ = consistency(r.dir)
+    res.violations.append(fw.Violation('call_did_not_return:%s' % hist[i]['op'], 'call %d (%s %r) did not return within %d s of wall time; the directory at that '
+                                       'point: %s' % (i, hist[i]['op'], hist[i]['args'], CALL_SECONDS, bad[:2] or 'consistent'),
+                                       dict(dict(gen_hist.history_json(g_objs, hist[:i + 1], cfg), check='history', failing_call=i), **(extra or {}))))
+
+
 def plain_histories(ctx, res, nhist, length, stats):
     terms, recs = [], []
     pols = ['least-recently-stored', 'least-recently-used', 'least-frequently-used', 'none']
@@ -72,9 +98,14 @@ def plain_histories(ctx, res, nhist, length, stats):
         cfg.size_limit_rel = [300, 2 ** 29, 80, 1500][h % 4]
         g = gen_hist.Gen(ctx.rng, cfg, weights=W)
         hist = g.history(length)
-        r = seqdrv.Runner(ctx, cfg, observe_every=1)
+        r = Runner(ctx, cfg, observe_every=1)
         r.objs = g.objs
-        tr = r.run(hist)
+        try:
+            tr = r.run(hist)
+        except callguard.CallDidNotReturn:
+            hung_call_violation(res, r, g.objs, hist, cfg)
+            r.close()
+            break               # (found; every further history may cost another CALL_SECONDS)
         # monitor on the final (quiescent) state and through the library's own check
         bad, _ = consistency(r.dir)
         with instr.Installed(r.clock):
@@ -143,9 +174,10 @@ def fault_histories(ctx, res, nhist, length, stats):
                 if counter['n'] == target:
                     counter['fired'] = ev.short()
                     raise OSError('injected fault')
-        r = seqdrv.Runner(ctx, cfg, observe_every=0)
+        r = Runner(ctx, cfg, observe_every=0)
         r.objs = g.objs
         failed_at = None
+        hung = False
         tracer = sched.Tracer(before=before)
         with instr.Installed(r.clock), tracer:
             r.open()
@@ -163,8 +195,15 @@ def fault_histories(ctx, res, nhist, length, stats):
                         break
                 except diskcache.Timeout:
                     pass
+                except callguard.CallDidNotReturn:
+                    hung = True
+                    break
             tracer.enable(False)
             r.close()
+        if hung:
+            r.done = i
+            hung_call_violation(res, r, g.objs, hist, cfg, {'check': 'fault', 'fault': [kind, target]})
+            break
         stats['fault_runs'] += 1
         stats['faults_fired'] += int(counter['fired'] is not None)
         bad, _ = consistency(r.dir)
@@ -889,6 +928,333 @@ def rejected_calls(ctx, res, stats, thorough):
     res.sample({'check': 'rejected_calls', 'containers': REJ_CONTAINERS, 'calls': st['calls'], 'raised': st['raised'], 'accepted': st['accepted']})
 
 
+# ---------------------------------------------------------------------------------------------------------------
+# Failing calls on ONE object, step by step.  "After any history of operations, whether they succeeded, failed ...": (1) stores of
+# file-backed values that SUCCEEDED, followed on the same object by calls that fail in every way a call can fail (KeyError of incr
+# without default / del of a missing key / pop from an empty Deque, a block that raises, a value the binding rejects, an injected database
+# error), followed by more stores and more failures; (2) an injected database error at EVERY statement of every storing call with a
+# file-backed value, on a key that is absent / holds an inline value / holds a file / has expired (the lazy cull has expired rows to
+# remove), alone, inside a block that then raises, and inside a block that catches the error and commits.  After every step the clauses
+# of the property are recomputed.
+
+FC_CONTAINERS = ['Cache', 'FanoutCache', 'Index', 'Deque']
+
+
+def _fc_open(d, container, cull_limit):
+    kw = dict(disk_min_file_size=8, cull_limit=cull_limit, eviction_policy='least-recently-stored')
+    if container == 'Cache':
+        o = diskcache.Cache(d, **kw)
+        return o, [d], o
+    if container == 'FanoutCache':
+        o = diskcache.FanoutCache(d, shards=2, **kw)
+        return o, [os.path.join(d, '%03d' % i) for i in range(2)], o
+    c = diskcache.Cache(d, **dict(kw, eviction_policy='none'))
+    o = (diskcache.Index if container == 'Index' else diskcache.Deque).fromcache(c)
+    return o, [d], c
+
+
+def _fc_call(o, container, st):
+    op, k = st['op'], st.get('key')
+    v, read = _cval(st['value']) if 'value' in st else (None, False)
+    if container in ('Cache', 'FanoutCache'):
+        if op == 'set':
+            return o.set(k, v, expire=st.get('expire'), read=read, tag=st.get('tag'))
+        if op == 'add':
+            return o.add(k, v, expire=st.get('expire'), read=read, tag=st.get('tag'))
+        if op == 'setitem':
+            o[k] = v
+            return None
+        if op == 'push':
+            return o.push(v, prefix=st.get('prefix'), side=st.get('side', 'back'), expire=st.get('expire'), read=read)
+        if op == 'pull':
+            return o.pull(prefix=st.get('prefix'))
+        if op == 'incr':
+            return o.incr(k, st.get('delta', 1), default=st.get('default', 0))
+        if op == 'touch':
+            return o.touch(k, expire=st.get('expire'))
+        if op == 'pop':
+            return o.pop(k)
+        if op == 'delete':
+            return o.delete(k)
+        if op == 'delitem':
+            del o[k]
+            return None
+        if op == 'get':
+            return o.get(k)
+        if op in ('expire', 'cull', 'clear'):
+            return getattr(o, op)()
+    elif container == 'Index':
+        if op in ('set', 'setitem'):
+            o[k] = v
+            return None
+        if op in ('add', 'setdefault'):
+            return o.setdefault(k, v)
+        if op == 'update':
+            return o.update({k: v})
+        if op == 'push':
+            return o.push(v, prefix=st.get('prefix'), side=st.get('side', 'back'))
+        if op == 'pull':
+            return o.pull(prefix=st.get('prefix'))
+        if op == 'pop':
+            return o.pop(k)
+        if op == 'delitem':
+            del o[k]
+            return None
+        if op == 'popitem':
+            return o.popitem()
+        if op == 'get':
+            return o.get(k)
+        if op == 'clear':
+            return o.clear()
+    else:
+        if op in ('append', 'set', 'push'):
+            return o.append(v)
+        if op in ('appendleft', 'add'):
+            return o.appendleft(v)
+        if op == 'extend':
+            return o.extend([v, _cval(st['value2'])[0]])
+        if op == 'setitem':
+            o[st['index']] = v
+            return None
+        if op == 'delitem':
+            del o[st['index']]
+            return None
+        if op in ('pop', 'popleft'):
+            return getattr(o, op)()
+        if op == 'rotate':
+            return o.rotate(st.get('n', 1))
+        if op == 'clear':
+            return o.clear()
+    raise ValueError('no %s on %s' % (op, container))
+
+
+def fc_run(mkdir, case):
+    """Runs the steps of case (see above) on one fresh container; a step may carry 'fault': n (the n-th statement of that step other than
+    BEGIN / COMMIT / ROLLBACK / PRAGMA raises OperationalError) and / or 'block': 'raise' | 'catch' (the call is made inside
+    `with o.transact():`, which then raises, or which catches the call's exception and completes).
+    -> (problems [(sig, text, step index)], info {'statements': [per step], 'outcomes': [...]})"""
+    container = case['container']
+    d = mkdir()
+    clock = instr.Clock(1000.0)
+    state = {'active': False, 'n': 0, 'target': None, 'fired': None}
+
+    def before(ev):
+        if not state['active'] or ev.kind != 'sql' or ev.what in ('BEGIN', 'COMMIT', 'ROLLBACK', 'PRAGMA'):
+            return
+        state['n'] += 1
+        if state['target'] is not None and state['n'] == state['target'] and state['fired'] is None:
+            state['fired'] = ev.short() + ' ' + str(ev.detail[0])[:70]
+            raise sqlite3.OperationalError('injected fault')
+    problems, counts, outcomes = [], [], []
+    tracer = sched.Tracer(before=before)
+    import diskcache.fanout as fanout_mod
+    with instr.Installed(clock, extra_modules=[fanout_mod]), tracer:
+        o, dirs, closer = _fc_open(d, container, case.get('cull_limit', 10))
+        tracer.enable(True)
+        try:
+            for i, st in enumerate(case['steps']):
+                if st['op'] == 'advance':
+                    clock.set(clock.now + st['dt'])
+                    counts.append(0)
+                    outcomes.append('clock')
+                    continue
+                state.update({'active': True, 'n': 0, 'target': st.get('fault'), 'fired': None})
+                outcome = None
+                files_before = _val_files(dirs)
+                try:
+                    if st.get('block'):
+                        try:
+                            with o.transact():
+                                for pre in st.get('before_in_block', []):
+                                    _fc_call(o, container, pre)
+                                try:
+                                    outcome = 'returned %r' % (_fc_call(o, container, st),)
+                                except Exception as e:  # noqa
+                                    if st['block'] != 'catch':
+                                        raise
+                                    outcome = 'raised %s, caught inside the block' % type(e).__name__
+                                if st['block'] == 'raise':
+                                    raise Injected('the block raises')
+                        except Injected:
+                            outcome = (outcome or '') + '; the block raised'
+                    else:
+                        outcome = 'returned %r' % (_fc_call(o, container, st),)
+                except Exception as e:  # noqa
+                    outcome = 'raised %s%s' % (type(e).__name__, ' (injected at %s)' % state['fired'] if state['fired'] else '')
+                state['active'] = False
+                counts.append(state['n'])
+                outcomes.append(outcome[:120])
+                bad = []
+                for sd in dirs:
+                    bad += consistency(sd)[0]
+                if bad:
+                    sig, text = bad[0]
+                    # the exact class of finding C08-F1: the ONLY inconsistency is value files written by this step's call, which raised inside a
+                    # block, was caught there, and the block completed
+                    orphans = [t for s_, t in bad if s_ == 'unknown_file']
+                    fresh = [os.path.relpath(f, sd) for sd in dirs for f in _val_files([sd]) - files_before]
+                    own = (st.get('block') == 'catch' and 'caught inside the block' in (outcome or '') and len(orphans) == len(bad)
+                           and all(any(fn in t for fn in fresh) for t in orphans))
+                    problems.append(('leak_after_caught_failure_in_block' if own else sig, text, i))
+                    break
+            if not problems:
+                tracer.enable(False)
+                for sd in dirs:
+                    c = diskcache.Cache(sd)
+                    try:
+                        libw = lib_check(c)
+                    finally:
+                        c.close()
+                    if libw:
+                        problems.append(('check_warns', 'Cache.check() reports: %s' % libw[:2], len(case['steps']) - 1))
+                        break
+        finally:
+            tracer.enable(False)
+            try:
+                closer.close()
+            except Exception:  # noqa
+                pass
+    return problems, {'statements': counts, 'outcomes': outcomes}
+
+
+def _fc_describe(case, i, info):
+    st = case['steps'][i]
+    how = ''
+    if st.get('block'):
+        how = ' inside a block that %s' % ('then raises' if st['block'] == 'raise' else 'catches the exception and completes')
+    hist = '; '.join('%s%s -> %s' % (s_['op'], '(%r)' % s_['key'] if 'key' in s_ else '', oc) for s_, oc in zip(case['steps'][:i + 1], info['outcomes']) if s_['op'] != 'advance')
+    return '%s step %d (%s%s%s): %s' % (case['container'], i, st['op'], ' with an injected database error at its statement #%d' % st['fault'] if st.get('fault') else '', how, hist[-700:])
+
+
+def fc_stores_then_failures(container):
+    """-> list of step lists: successful file-backed stores, a failing call, more stores, another failing call ..."""
+    S = lambda kind, n, t: [kind, n, t]
+    if container in ('Cache', 'FanoutCache'):
+        stores = [[{'op': 'set', 'key': 'a', 'value': S('str', 40, 1)}, {'op': 'add', 'key': 'b', 'value': S('bytes', 30, 2)}],
+                  [{'op': 'setitem', 'key': 'c', 'value': S('tuple', 12, 3)}, {'op': 'set', 'key': 'a', 'value': S('bytes', 50, 4)}],
+                  [{'op': 'set', 'key': 'd', 'value': S('stream', 60, 5)}, {'op': 'incr', 'key': 'n'}, {'op': 'add', 'key': 'e', 'value': S('str', 33, 6), 'expire': 100}]]
+        if container == 'Cache':
+            stores[1].append({'op': 'push', 'value': S('str', 25, 7), 'prefix': 'q'})
+        fails = [{'op': 'incr', 'key': 'missing', 'default': None}, {'op': 'delitem', 'key': 'missing'},
+                 {'op': 'set', 'key': 'x', 'value': S('int', 1, 0), 'block': 'raise'}, {'op': 'set', 'key': 'y', 'value': S('str', 44, 8), 'block': 'raise'},
+                 {'op': 'delete', 'key': 'missing', 'block': 'raise'}, {'op': 'set', 'key': 'z', 'value': S('str', 41, 9), 'tag': ['unbindable']},
+                 {'op': 'set', 'key': 'w', 'value': S('int', 2, 0), 'fault': 1}, {'op': 'pop', 'key': 'a', 'fault': 1}, {'op': 'touch', 'key': 'b', 'expire': 5, 'fault': 2},
+                 {'op': 'incr', 'key': 'b'}]
+    elif container == 'Index':
+        stores = [[{'op': 'setitem', 'key': 'a', 'value': S('str', 40, 1)}, {'op': 'setdefault', 'key': 'b', 'value': S('bytes', 30, 2)}],
+                  [{'op': 'update', 'key': 'c', 'value': S('tuple', 12, 3)}, {'op': 'setitem', 'key': 'a', 'value': S('bytes', 50, 4)}, {'op': 'push', 'value': S('str', 25, 7), 'prefix': 'q'}],
+                  [{'op': 'setitem', 'key': 'd', 'value': S('str', 60, 5)}]]
+        fails = [{'op': 'delitem', 'key': 'missing'}, {'op': 'pop', 'key': 'missing'}, {'op': 'setitem', 'key': 'x', 'value': S('int', 1, 0), 'block': 'raise'},
+                 {'op': 'setitem', 'key': 'y', 'value': S('str', 44, 8), 'block': 'raise'}, {'op': 'setitem', 'key': 'w', 'value': S('int', 2, 0), 'fault': 1},
+                 {'op': 'pop', 'key': 'a', 'fault': 1}]
+    else:
+        stores = [[{'op': 'append', 'value': S('str', 40, 1)}, {'op': 'appendleft', 'value': S('bytes', 30, 2)}],
+                  [{'op': 'extend', 'value': S('tuple', 12, 3), 'value2': S('str', 26, 4)}, {'op': 'setitem', 'index': 0, 'value': S('bytes', 50, 4)}],
+                  [{'op': 'append', 'value': S('str', 60, 5)}, {'op': 'rotate', 'n': 1}]]
+        fails = [{'op': 'delitem', 'index': 99}, {'op': 'setitem', 'index': 99, 'value': S('str', 30, 9)}, {'op': 'append', 'value': S('int', 1, 0), 'block': 'raise'},
+                 {'op': 'append', 'value': S('str', 44, 8), 'block': 'raise'}, {'op': 'pop', 'block': 'raise'}, {'op': 'append', 'value': S('int', 2, 0), 'fault': 1},
+                 {'op': 'popleft', 'fault': 1}]
+    out = []
+    for fi in range(len(fails)):
+        steps = []
+        for si, group in enumerate(stores):
+            steps += group
+            steps.append(fails[(fi + si * 3) % len(fails)])
+        steps += [dict(st) for st in stores[0]]           # and the object goes on working
+        out.append(steps)
+    return out
+
+
+def fc_faulted_stores(container):
+    """-> list of (steps, index of the storing step under test): the storing call on a key in each state, value kinds rotating"""
+    S = lambda kind, n, t: [kind, n, t]
+    kinds = ['str', 'bytes', 'tuple', 'stream']
+    setup = [{'op': 'set', 'key': 'inline', 'value': S('int', 5, 0)}, {'op': 'set', 'key': 'file', 'value': S('str', 40, 1)},
+             {'op': 'set', 'key': 'expired', 'value': S('bytes', 30, 2), 'expire': 1}, {'op': 'set', 'key': 'e2', 'value': S('str', 35, 3), 'expire': 1},
+             {'op': 'set', 'key': 'e3', 'value': S('int', 7, 0), 'expire': 2}, {'op': 'advance', 'dt': 10}]
+    out = []
+    n = 0
+    if container in ('Cache', 'FanoutCache'):
+        ops = ['set', 'add', 'setitem'] + (['push'] if container == 'Cache' else [])
+        for op in ops:
+            for key in ('absent', 'inline', 'file', 'expired'):
+                n += 1
+                st = {'op': op, 'key': key, 'value': S(kinds[n % 4] if not (op == 'setitem' and kinds[n % 4] == 'stream') else 'str', 30 + n, n)}
+                if op == 'push':
+                    st = {'op': 'push', 'value': st['value'], 'prefix': [None, 'q'][n % 2], 'side': ['back', 'front'][(n // 2) % 2]}
+                    if key in ('inline', 'file'):
+                        continue
+                if op in ('set', 'add') and n % 3 == 0:
+                    st['expire'] = 50
+                out.append((setup + [st], len(setup)))
+    elif container == 'Index':
+        setup = [{'op': 'setitem', 'key': 'inline', 'value': S('int', 5, 0)}, {'op': 'setitem', 'key': 'file', 'value': S('str', 40, 1)}]
+        for op in ('setitem', 'setdefault', 'update', 'push'):
+            for key in ('absent', 'inline', 'file'):
+                n += 1
+                st = {'op': op, 'key': key, 'value': S(kinds[n % 3], 30 + n, n)}
+                if op == 'push':
+                    if key != 'absent':
+                        continue
+                    st = {'op': 'push', 'value': st['value'], 'prefix': 'q'}
+                out.append((setup + [st], len(setup)))
+    else:
+        setup = [{'op': 'append', 'value': S('int', 5, 0)}, {'op': 'append', 'value': S('str', 40, 1)}]
+        for op in ('append', 'appendleft', 'setitem', 'extend'):
+            n += 1
+            st = {'op': op, 'value': S(kinds[n % 3], 30 + n, n), 'value2': S('str', 28, 9), 'index': n % 2}
+            out.append((setup + [st], len(setup)))
+    return out
+
+
+def failing_calls(ctx, res, stats, thorough):
+    st_ = stats.setdefault('failing_calls', {'runs': 0, 'faults_fired': 0, 'stores_then_failures': 0, 'faulted_store_cases': 0})
+    seen = set()
+
+    import concdrv
+
+    def one(case, what):
+        problems, info = fc_run(lambda: concdrv.scratch(ctx, 'c08fc'), case)
+        st_['runs'] += 1
+        st_['faults_fired'] += sum(1 for oc in info['outcomes'] if 'injected at' in oc)
+        res.count(['failing-calls', case['container'], case.get('cull_limit'), repr(case['steps'])], nontrivial=True)
+        for sig, text, i in problems[:1]:
+            if sig != 'leak_after_caught_failure_in_block':          # (finding C08-F1 is recognised exactly, in fc_run)
+                sig = '%s:%s' % (sig, what)
+            if sig not in seen:
+                seen.add(sig)
+                res.violations.append(fw.Violation(sig, '%s [%s]' % (text, _fc_describe(case, i, info)), dict(case, check='failing_calls', what=what)))
+        return info
+    containers = FC_CONTAINERS if thorough else ['Cache', 'FanoutCache', ['Index', 'Deque'][ctx.seed % 2]]
+    for container in containers:
+        for steps in fc_stores_then_failures(container):
+            for cull in ((10, 0) if thorough else (10,)):
+                st_['stores_then_failures'] += 1
+                one({'container': container, 'cull_limit': cull, 'steps': steps}, 'after_failing_call')
+    for container in containers:
+        for ci, (steps, at) in enumerate(fc_faulted_stores(container)):
+            op = steps[at]['op']
+            base = {'container': container, 'cull_limit': 10, 'steps': steps}
+            info = one(base, 'store')
+            nst = info['statements'][at] if len(info['statements']) > at else 0
+            st_['faulted_store_cases'] += 1
+            for block in ((None, 'raise', 'catch') if thorough else (None, ['raise', 'catch'][(ci + ctx.seed) % 2])):
+                if block == 'raise':
+                    st2 = [dict(s_) for s_ in steps]
+                    st2[at]['block'] = 'raise'
+                    one(dict(base, steps=st2), 'store_in_aborted_block:%s' % op)
+                for n in range(1, nst + 1):
+                    if block == 'raise' and n % 2 and not thorough:
+                        continue
+                    st2 = [dict(s_) for s_ in steps]
+                    st2[at]['fault'] = n
+                    if block:
+                        st2[at]['block'] = block
+                    one(dict(base, steps=st2), 'after_db_error:%s' % op if not block else
+                        ('after_db_error_in_aborted_block:%s' if block == 'raise' else 'caught_in_block_db_error:%s') % op)
+    res.sample({'check': 'failing_calls', 'runs': st_['runs'], 'faults_fired': st_['faults_fired']})
+
+
 def witnesses(res):
     import tempfile, shutil
     d = tempfile.mkdtemp(prefix='c08wit-')
@@ -912,6 +1278,19 @@ def witnesses(res):
         res.witnessed['leak_after_failed_write'] = any(s == 'unknown_file' for s, _ in bad)
         c.close()
         shutil.rmtree(d2, ignore_errors=True)
+        # a storing call that fails INSIDE a block, caught there, and the block completes: its value file must not stay behind
+        d3 = tempfile.mkdtemp(prefix='c08wit-')
+        c = diskcache.Cache(d3, disk_min_file_size=8)
+        with c.transact():
+            try:
+                c.set('k', 'x' * 50, tag=('t',))
+            except Exception:
+                pass
+            c.set('j', 1)
+        bad, _ = consistency(d3)
+        res.witnessed['leak_after_caught_failure_in_block'] = any(s == 'unknown_file' for s, _ in bad)
+        c.close()
+        shutil.rmtree(d3, ignore_errors=True)
     finally:
         shutil.rmtree(d, ignore_errors=True)
 
@@ -1099,6 +1478,12 @@ def run(ctx, big=False):
                 'text, read=True of a non-stream; incr delta / default of the wrong type or beyond 2^63; push side / prefix of the wrong kind) and otherwise '
                 'good arguments with text / bytes / pickled / stream values kept in files (and an inline one) on a populated container: after every such call '
                 'the clauses above hold and rows, counters and files are exactly as before; check() silent.  '
+                'FAILING calls on one object (Cache, FanoutCache, Index, Deque), the clauses recomputed after every step: successful file-backed stores '
+                '(set, add, []=, push, replacing set, streams) followed by a failing call (KeyError of incr without default / del / pop of a missing key, IndexError, a '
+                'block that raises after an inline or a file-backed write, a tag the binding rejects, an injected database error in set / pop / touch), more stores, '
+                'another failing call, more stores; and an injected database error at EVERY statement (lookup, INSERT / UPDATE, the lazy cull of expired rows) of '
+                'every storing call with a file-backed value on a key that is absent / inline / file-backed / expired, alone, inside a block that then raises, '
+                'and inside a block that catches the error and completes.  '
                 'non-trivial = at least one value file exists in the observed state / the fault fired.')
     stats = {'states': 0, 'file_rows': 0, 'fault_runs': 0, 'faults_fired': 0, 'unencodable': 0}
     thorough = not ctx.quick or big
@@ -1111,6 +1496,7 @@ def run(ctx, big=False):
     removal_races(ctx, res, stats, thorough)
     shared_block_races(ctx, res, stats, not ctx.quick)       # (search mode keeps the quick family: it is systematic already)
     rejected_calls(ctx, res, stats, thorough)
+    failing_calls(ctx, res, stats, thorough)
     if not ctx.search_mode:
         correspondence(ctx, res, terms, recs)
     res.extra.update({'states_checked': stats['states'], 'file_backed_rows_seen': stats['file_rows'],
@@ -1118,7 +1504,8 @@ def run(ctx, big=False):
                       'open_race_schedules': stats.get('open_race_runs', 0), 'removal_race_schedules': stats.get('removal_race_runs', 0),
                       'shared_object_block_race_schedules': stats.get('shared_block_race_runs', 0),
                       'lock_contention_cases': stats.get('contention_cases', 0), 'calls_that_gave_up_on_the_lock': stats.get('contention_timeouts', 0),
-                      'calls_that_waited_for_the_lock': stats.get('contention_waits', 0), 'rejected_calls': stats.get('rejected_calls')})
+                      'calls_that_waited_for_the_lock': stats.get('contention_waits', 0), 'rejected_calls': stats.get('rejected_calls'),
+                      'failing_calls': stats.get('failing_calls')})
     witnesses(res)
     return res
 
@@ -1161,6 +1548,16 @@ def replay(payload):
             return not problems
         finally:
             ctx.cleanup()
+    if case.get('check') == 'failing_calls':
+        ctx = fw.Ctx('C08', 'quick', 1)
+        try:
+            problems, info = fc_run(lambda: ctx.scratch('c08fc'), case)
+            for st, oc, n in zip(case['steps'], info['outcomes'], info['statements']):
+                print(st, '->', oc, '(%d statements)' % n)
+            print('monitor:', problems)
+            return not problems
+        finally:
+            ctx.cleanup()
     if case.get('check') == 'text':
         ctx = fw.Ctx('C08', 'quick', 1)
         try:
@@ -1177,9 +1574,13 @@ def replay(payload):
     objs, hist, cfg = gen_hist.history_from_json(case)
     ctx = fw.Ctx('C08', 'quick', 1)
     try:
-        r = seqdrv.Runner(ctx, cfg, observe_every=0)
+        r = Runner(ctx, cfg, observe_every=0)
         r.objs = objs
-        r.run(hist)
+        try:
+            r.run(hist)
+        except callguard.CallDidNotReturn as e:
+            print('call %d (%s) did not return within %d s' % (r.done, e, CALL_SECONDS))
+            return False
         bad, _ = consistency(r.dir)
         print('consistency:', bad)
         return not bad
